@@ -545,7 +545,8 @@ Fixpoint targets_columns (e : env) (tables : list qtable) (targets : list node) 
 Definition qcatalog := list (string * qtable).
 
 Definition qc_get_table (e : env) (ctes : qcatalog) (rel : tname) : result qtable :=
-  match assoc ctes (tn_name rel) with
+  (* a schema-qualified name never denotes a CTE *)
+  match (if String.eqb (tn_schema rel) "" then assoc ctes (tn_name rel) else None) with
   | Some t => Ok t
   | None =>
       match cat_get_table (env_cat e) rel with
